@@ -2,6 +2,7 @@ import Utcp.Lemmas.Size
 import Utcp.Lemmas.Keeps
 import Utcp.Lemmas.RecvKeeps
 import Utcp.Props.C14
+import Utcp.Props.C11
 import Utcp.Lemmas.RecvAdds
 /-!
 # The send-buffer invariant
@@ -34,9 +35,13 @@ structure SInv (e : Env) (c : Conn) : Prop where
   room : c.sendActive = true → c.sendBitsNum e ≤ 8191
   conn : c.connected = true
   chans : AllOK c
+  /-- the two sequence numbers a packet header carries are 14-bit values -/
+  seqs : (0 ≤ c.notify.outSeq ∧ c.notify.outSeq < 16384) ∧ (0 ≤ c.notify.inAckSeq ∧ c.notify.inAckSeq < 16384)
+  /-- the header placeholder is the encoding of a well-formed header -/
+  notifEnc : c.sendActive = true → ∃ h, Props.C11.WFHeader h ∧ c.sendNotif = encodeNotifHeader h
 
 theorem SInv.env {e e' : Env} {c : Conn} (h : SInv e c) (hm : e'.magicBits = e.magicBits) : SInv e' c := by
-  refine ⟨by rw [hm]; exact h.magic, h.hist, h.words, h.notif, ?_, h.conn, h.chans⟩
+  refine ⟨by rw [hm]; exact h.magic, h.hist, h.words, h.notif, ?_, h.conn, h.chans, h.seqs, h.notifEnc⟩
   intro ha
   have := h.room ha
   unfold Conn.sendBitsNum Env.outHdrLen at *
@@ -109,7 +114,8 @@ theorem freeBits_inactive (e : Env) (c : Conn) (ha : c.sendActive = false) : c.f
 
 theorem SInv.of_fields {e : Env} {c c' : Conn} (h : SInv e c) (h1 : c'.notify = c.notify) (h2 : c'.sendActive = c.sendActive) (h3 : c'.sendNotif = c.sendNotif)
     (h4 : c'.sendBody = c.sendBody) (h5 : c'.connected = c.connected) (h6 : AllOK c') : SInv e c' := by
-  refine ⟨h.magic, by rw [h1]; exact h.hist, by rw [h1]; exact h.words, ?_, ?_, by rw [h5]; exact h.conn, h6⟩
+  refine ⟨h.magic, by rw [h1]; exact h.hist, by rw [h1]; exact h.words, ?_, ?_, by rw [h5]; exact h.conn, h6, by rw [h1]; exact h.seqs,
+    fun ha => by rw [h3]; exact h.notifEnc (by rw [← h2]; exact ha)⟩
   · intro ha; rw [h3, h1]; exact h.notif (by rw [← h2]; exact ha)
   · intro ha
     have := h.room (by rw [← h2]; exact ha)
@@ -128,13 +134,29 @@ theorem startPacket_sinv (e : Env) (c : Conn) (h : SInv e c) :
     have : c.startPacket.sendActive = true := rfl
     simp only [this, if_true, startPacket_sendBody, List.length_nil]
     rw [h1]; omega
-  refine ⟨⟨hm, h4, h2, fun _ => h1, fun _ => by omega, h.conn, h.chans⟩, rfl, hsz⟩
+  have hwf : Props.C11.WFHeader (c.notify.headerWith c.notify.curWords) :=
+    ⟨h.seqs.1, h.seqs.2, curWords_range c.notify, headerWith_hist_length _ _ h.hist (curWords_range c.notify).2⟩
+  refine ⟨⟨hm, h4, h2, fun _ => h1, fun _ => by omega, h.conn, h.chans, h.seqs, fun _ => ⟨_, hwf, rfl⟩⟩, rfl, hsz⟩
 
 theorem flushNow_sinv (e : Env) (c : Conn) (h : SInv e c) (ha : c.sendActive = true) :
     SInv e (c.flushNow e) ∧ Adds SizeOK c (c.flushNow e) := by
   constructor
-  · obtain ⟨_, _, _, _, k5⟩ := finalHeader_keeps c
-    refine ⟨h.magic, ?_, ?_, ?_, ?_, h.conn, h.chans⟩
+  · obtain ⟨_, _, k3, _, k5⟩ := finalHeader_keeps c
+    have kout : c.finalHeader.1.outSeq = c.notify.outSeq := by
+      unfold Conn.finalHeader Notify.fillRefresh
+      split
+      · rename_i n hh heq
+        split at heq
+        · simp at heq
+        · simp at heq; obtain ⟨rfl, _⟩ := heq; rfl
+      · rfl
+    have hseqs : (0 ≤ c.finalHeader.1.commit.outSeq ∧ c.finalHeader.1.commit.outSeq < 16384) ∧ (0 ≤ c.finalHeader.1.commit.inAckSeq ∧ c.finalHeader.1.commit.inAckSeq < 16384) := by
+      refine ⟨?_, ?_⟩
+      · show 0 ≤ seq_num_inc c.finalHeader.1.outSeq 1 ∧ seq_num_inc c.finalHeader.1.outSeq 1 < 16384
+        simp only [seq_num_inc, seq_num_init]; omega
+      · show 0 ≤ c.finalHeader.1.inAckSeq ∧ c.finalHeader.1.inAckSeq < 16384
+        rw [k3]; exact h.seqs.2
+    refine ⟨h.magic, ?_, ?_, ?_, ?_, h.conn, h.chans, hseqs, fun hx => absurd hx (by simp [Conn.flushNow])⟩
     · show c.finalHeader.1.commit.hist.length = 256
       unfold Notify.commit; simp only; rw [k5]; exact h.hist
     · show c.finalHeader.1.commit.writtenWords ≤ 8
@@ -206,7 +228,7 @@ theorem writeInternal_sinv (e : Env) (c : Conn) (bits : Bits) (h : SInv e c) (ha
   have hroom := h.room ha
   rw [freeBits_active e c ha hroom] at hfit
   have h1 : SInv e { c with sendBody := c.sendBody ++ bits } := by
-    refine ⟨h.magic, h.hist, h.words, h.notif, ?_, h.conn, h.chans⟩
+    refine ⟨h.magic, h.hist, h.words, h.notif, ?_, h.conn, h.chans, h.seqs, h.notifEnc⟩
     intro _
     unfold Conn.sendBitsNum at hroom hfit ⊢
     simp only [ha, if_true, List.length_append] at hroom hfit ⊢
@@ -356,28 +378,31 @@ theorem notifyUpdate_sinv (e : Env) (c : Conn) (hd : NotifHeader) (h : SInv e c)
       obtain ⟨a1, a2⟩ := handleNotification_sinv e c v h
       obtain ⟨b1, b2⟩ := ih _ a1
       exact ⟨b1, a2.trans b2⟩
-  have hu : ∀ k a, (c.notify.updateInAckSeqAck k a).hist = c.notify.hist ∧ (c.notify.updateInAckSeqAck k a).writtenWords = c.notify.writtenWords := by
+  have hu : ∀ k a, (c.notify.updateInAckSeqAck k a).hist = c.notify.hist ∧ (c.notify.updateInAckSeqAck k a).writtenWords = c.notify.writtenWords ∧
+      (c.notify.updateInAckSeqAck k a).outSeq = c.notify.outSeq ∧ (c.notify.updateInAckSeqAck k a).inAckSeq = c.notify.inAckSeq := by
     intro k a
     unfold Notify.updateInAckSeqAck
     dsimp only
     split
     · split
-      · split <;> exact ⟨rfl, rfl⟩
-      · exact ⟨rfl, rfl⟩
-    · exact ⟨rfl, rfl⟩
+      · split <;> exact ⟨rfl, rfl, rfl, rfl⟩
+      · exact ⟨rfl, rfl, rfl, rfl⟩
+    · exact ⟨rfl, rfl, rfl, rfl⟩
   -- assigning `outAckSeq` / `inSeq` does not matter to the invariant
-  have hset : ∀ (c : Conn) (n : Notify), SInv e c → n.hist = c.notify.hist → n.writtenWords = c.notify.writtenWords → SInv e { c with notify := n } := by
-    intro c n h h1 h2
-    refine ⟨h.magic, by show n.hist.length = 256; rw [h1]; exact h.hist, by show n.writtenWords ≤ 8; rw [h2]; exact h.words, ?_, ?_, h.conn, h.chans⟩
+  have hset : ∀ (c : Conn) (n : Notify), SInv e c → n.hist = c.notify.hist → n.writtenWords = c.notify.writtenWords →
+      n.outSeq = c.notify.outSeq → n.inAckSeq = c.notify.inAckSeq → SInv e { c with notify := n } := by
+    intro c n h h1 h2 h3 h4
+    refine ⟨h.magic, by show n.hist.length = 256; rw [h1]; exact h.hist, by show n.writtenWords ≤ 8; rw [h2]; exact h.words, ?_, ?_, h.conn, h.chans,
+      by show (0 ≤ n.outSeq ∧ n.outSeq < 16384) ∧ (0 ≤ n.inAckSeq ∧ n.inAckSeq < 16384); rw [h3, h4]; exact h.seqs, h.notifEnc⟩
     · intro ha; show c.sendNotif.length = 33 + 32 * n.writtenWords; rw [h2]; exact h.notif ha
     · intro ha; exact h.room ha
   split
-  · obtain ⟨u1, u2⟩ := hu (seq_num_diff hd.ackedSeq c.notify.outAckSeq).toNat hd.ackedSeq
-    have h0 := hset c _ h u1 u2
+  · obtain ⟨u1, u2, u3, u4⟩ := hu (seq_num_diff hd.ackedSeq c.notify.outAckSeq).toNat hd.ackedSeq
+    have h0 := hset c _ h u1 u2 u3 u4
     obtain ⟨f1, f2⟩ := hfold (verdicts c.notify.outAckSeq hd (seq_num_diff hd.ackedSeq c.notify.outAckSeq).toNat) _ h0
-    refine ⟨hset _ _ (hset _ _ f1 rfl rfl) rfl rfl, ?_⟩
+    refine ⟨hset _ _ (hset _ _ f1 rfl rfl rfl rfl) rfl rfl rfl rfl, ?_⟩
     exact ((Adds.of_log_eq rfl : Adds SizeOK c _).trans f2).trans (Adds.of_log_eq rfl)
-  · exact ⟨hset _ _ h rfl rfl, Adds.of_log_eq rfl⟩
+  · exact ⟨hset _ _ h rfl rfl rfl rfl, Adds.of_log_eq rfl⟩
 
 /-! ### the receive path keeps every retransmission record as it is -/
 
@@ -566,6 +591,17 @@ theorem ackSeqLoop_fields (fuel : Nat) : ∀ (n : Notify) (acked : Int) (isAck :
     · exact ih _ _ _ (pushHist_length _ _ h)
     · exact ⟨h, rfl⟩
 
+theorem ackSeqLoop_seqs (fuel : Nat) : ∀ (n : Notify) (acked : Int) (isAck : Bool), (0 ≤ n.inAckSeq ∧ n.inAckSeq < 16384) →
+    (ackSeqLoop fuel n acked isAck).outSeq = n.outSeq ∧ (0 ≤ (ackSeqLoop fuel n acked isAck).inAckSeq ∧ (ackSeqLoop fuel n acked isAck).inAckSeq < 16384) := by
+  induction fuel with
+  | zero => intro n _ _ h; exact ⟨rfl, h⟩
+  | succ f ih =>
+    intro n acked isAck h
+    unfold ackSeqLoop
+    split
+    · exact ih _ _ _ (by show 0 ≤ seq_num_inc n.inAckSeq 1 ∧ seq_num_inc n.inAckSeq 1 < 16384; simp only [seq_num_inc, seq_num_init]; omega)
+    · exact ⟨rfl, h⟩
+
 /-- **`ReceivedPacket` on any bit string keeps the invariant, and whatever it emits (retransmissions triggered by NAKs, packets
 flushed to make room for them) respects the size bound** -/
 theorem receivedPacket_sinv (e : Env) (c : Conn) (bits : Bits) (h : SInv e c) :
@@ -589,7 +625,10 @@ theorem receivedPacket_sinv (e : Env) (c : Conn) (bits : Bits) (h : SInv e c) :
       simp only at hs ha hl ⊢
       have h3 : SInv e c3 := n1.of_fields hs.notify hs.sendActive hs.sendNotif hs.sendBody hs.connected ha
       obtain ⟨k1, k2⟩ := ackSeqLoop_fields 16384 c3.notify (seq_num_init (c3.inPacketId % 65536)) (!skip) h3.hist
-      refine ⟨⟨h3.magic, k1, by show (c3.notify.ackSeq _ _).writtenWords ≤ 8; unfold Notify.ackSeq; rw [k2]; exact h3.words, ?_, ?_, h3.conn, h3.chans⟩, ?_⟩
+      obtain ⟨q1, q2⟩ := ackSeqLoop_seqs 16384 c3.notify (seq_num_init (c3.inPacketId % 65536)) (!skip) h3.seqs.2
+      refine ⟨⟨h3.magic, k1, by show (c3.notify.ackSeq _ _).writtenWords ≤ 8; unfold Notify.ackSeq; rw [k2]; exact h3.words, ?_, ?_, h3.conn, h3.chans,
+        ⟨by show 0 ≤ (c3.notify.ackSeq _ _).outSeq ∧ (c3.notify.ackSeq _ _).outSeq < 16384; unfold Notify.ackSeq; rw [q1]; exact h3.seqs.1,
+         by show 0 ≤ (c3.notify.ackSeq _ _).inAckSeq ∧ (c3.notify.ackSeq _ _).inAckSeq < 16384; unfold Notify.ackSeq; exact q2⟩, h3.notifEnc⟩, ?_⟩
       · intro hx
         show c3.sendNotif.length = 33 + 32 * (c3.notify.ackSeq _ _).writtenWords
         unfold Notify.ackSeq; rw [k2]; exact h3.notif hx
@@ -709,7 +748,10 @@ theorem sendBunch_sinv (e : Env) (c : Conn) (b : Bunch) (h : SInv e c) :
 /-- `utcp_sequence_init` on a connection whose send buffer is empty -/
 theorem seqInit_sinv (e : Env) (c : Conn) (i o : Int) (hm : e.magicBits ≤ 32) (ha : c.sendActive = false) (hw : c.notify.writtenWords ≤ 8)
     (hc : c.connected = true) (hch : AllOK c) : SInv e (c.seqInit i o) := by
-  refine ⟨hm, ?_, hw, ?_, ?_, hc, hch.of_chans rfl⟩
+  refine ⟨hm, ?_, hw, ?_, ?_, hc, hch.of_chans rfl, ?_, fun hx => absurd (show c.sendActive = true from hx) (by simp [ha])⟩
+  rotate_left 3
+  · show (0 ≤ seq_num_init (o % 65536) ∧ seq_num_init (o % 65536) < 16384) ∧ (0 ≤ seq_num_init ((i - 1) % 65536) ∧ seq_num_init ((i - 1) % 65536) < 16384)
+    simp only [seq_num_init]; omega
   · show (List.replicate histLen false).length = 256
     rw [List.length_replicate]; decide
   · intro hx; exact absurd (show c.sendActive = true from hx) (by simp [ha])
